@@ -212,7 +212,10 @@ func collectEntryNodes(node Node, m map[reflect.Type]struct{}) {
 			collectEntryNodes(el, m)
 		}
 	case Not:
-		collectEntryNodes(node.Node, m)
+		// A Not matches wherever its operand doesn't, which can be a node of any type.
+		for _, T := range allTypes {
+			m[T] = struct{}{}
+		}
 	case Binding:
 		collectEntryNodes(node.Node, m)
 	case Nil, nil:
